@@ -6,7 +6,7 @@
     conditions on the USER's tree ([build_zsh_ok]; the names of the built tree are [BuildSkeleton.bskel] of the user's). *)
 From ClapModel Require Import Base.Bytes Complete.AotTree Complete.AotProofs Complete.BashModel Complete.BashProofs.
 From ClapModel Require Import Complete.FishModel Complete.BuildTexts Complete.ZshModel Complete.ZshProofs.
-From ClapModel Require Import Complete.BuildLinked Complete.BuildSkeleton.
+From ClapModel Require Import Complete.BuildLinked Complete.BuildSkeleton Complete.NushellLexProofs.
 From Coq Require Import String Lia.
 Open Scope N_scope.
 Open Scope list_scope.
@@ -14,16 +14,46 @@ Open Scope list_scope.
 (** C16 (zsh), generate: for EVERY command tree without explicit bin names on subcommands, every assignment of texts and
     every non-empty bin name, [clap_complete::aot::generate(Zsh, ..)] writes a script: [build] does not run out of fuel,
     no [expect] of the generator fires, the recursion through the lookup by bin name ends *)
-Theorem generate_zsh_total bl c d bin :
-  nb c = true -> bin <> [] -> exists s, generate_zsh bl c d bin = Some s.
+(** round 4: ... and no [arg_conflicts] call panics.  Two classes: trees whose conflicts resolve on the BUILT tree
+    ([generate_zsh_total_resolved]; the local boolean class [ZshProofs.conflicts_local] at every node of the built tree
+    gives it, [ZshProofs.zsh_ok_local]), and -- on the USER's tree -- trees without any [conflicts_with]
+    ([args_all no_bl]: kept by [build], the generated arguments have none) *)
+Definition no_bl (a : arg) : bool := is_nil (a_blacklist a).
+Lemma aa_desc P c n : args_all P c = true -> desc c n -> args_all P n = true.
 Proof.
-  intros Hb Hne. unfold generate_zsh.
+  intros H Hd. induction Hd as [c sc Hin|c sc m Hin Hd IH].
+  - eapply aa_subs; eassumption.
+  - apply IH. eapply aa_subs; eassumption.
+Qed.
+Lemma aa_nobl b : args_all no_bl b = true -> nobl b.
+Proof.
+  intros H n Hn a Ha.
+  assert (Hn' : args_all no_bl n = true) by (destruct Hn as [->|Hd]; [exact H|eapply aa_desc; eassumption]).
+  pose proof (aa_args no_bl n Hn') as Hargs. rewrite forallb_forall in Hargs. specialize (Hargs a Ha).
+  unfold no_bl in Hargs. destruct (a_blacklist a); [reflexivity|discriminate].
+Qed.
+Theorem build_nobl c bin b : build (set_bin_name c bin) = Some b -> args_all no_bl c = true -> nobl b.
+Proof. intros Hb Hc. apply aa_nobl. apply (aa_build no_bl eq_refl eq_refl _ b Hb). apply aa_with_bin. exact Hc. Qed.
+
+Theorem generate_zsh_total_resolved c d bin :
+  nb c = true -> bin <> [] ->
+  (forall b, build (set_bin_name c bin) = Some b -> conflicts_resolve b None = true /\ cres_below b) ->
+  exists s, generate_zsh c d bin = Some s.
+Proof.
+  intros Hb Hne Hcr. unfold generate_zsh.
   destruct (build (set_bin_name c bin)) as [b|] eqn:E; [|exfalso; exact (build_total _ E)].
-  destruct (build_linked c bin b Hb Hne E) as [H1 H2]. exact (zsh_total bl b _ bin H1 H2).
+  destruct (build_linked c bin b Hb Hne E) as [H1 H2]. destruct (Hcr b eq_refl) as [H3 H4].
+  exact (zsh_total b _ bin H1 H2 H3 H4).
+Qed.
+Theorem generate_zsh_total c d bin :
+  nb c = true -> bin <> [] -> args_all no_bl c = true -> exists s, generate_zsh c d bin = Some s.
+Proof.
+  intros Hb Hne Hnb. apply generate_zsh_total_resolved; [exact Hb|exact Hne|].
+  intros b E. apply nobl_cres. exact (build_nobl c bin b E Hnb).
 Qed.
 
-Theorem generate_zsh_is_built bl c d bin b :
-  build (set_bin_name c bin) = Some b -> generate_zsh bl c d bin = zsh_script bl b (dbuild (set_bin_name c bin) d).
+Theorem generate_zsh_is_built c d bin b :
+  build (set_bin_name c bin) = Some b -> generate_zsh c d bin = zsh_script b (dbuild (set_bin_name c bin) d).
 Proof. intros H. unfold generate_zsh. rewrite H. reflexivity. Qed.
 
 Example generate_zsh_total_example :
@@ -51,29 +81,37 @@ Proof. intros H p Hp. apply nodup_names. exact (H p Hp). Qed.
 
 (** [Command::build] takes a user tree with distinct sibling names and aliases, no blank in a subcommand name, no explicit
     bin names and no subcommand called [help] where clap generates one into the class of the zsh theorems *)
-Theorem build_zsh_ok c bin b :
+Theorem build_zsh_ok_resolved c bin b :
   nb c = true -> bin <> [] -> nospace c -> siblings_ok c -> help_free false c = true ->
-  build (set_bin_name c bin) = Some b -> zsh_ok b bin.
+  build (set_bin_name c bin) = Some b -> conflicts_resolve b None = true -> cres_below b -> zsh_ok b bin.
 Proof.
-  intros Hnb Hne Hsp Hsib Hhf Hb. destruct (build_linked c bin b Hnb Hne Hb) as [H1 H2].
-  constructor; [exact H1|exact H2| |].
+  intros Hnb Hne Hsp Hsib Hhf Hb Hc0 Hcr. destruct (build_linked c bin b Hnb Hne Hb) as [H1 H2].
+  constructor; [exact H1|exact H2| | |exact Hc0|exact Hcr].
   - apply nospace_names. apply (build_names no_blank c bin b eq_refl Hb). apply nospace_names. exact Hsp.
   - apply siblings_ok_names. exact (build_siblings_ok c bin b Hb Hsib Hhf).
+Qed.
+Theorem build_zsh_ok c bin b :
+  nb c = true -> bin <> [] -> nospace c -> siblings_ok c -> help_free false c = true -> args_all no_bl c = true ->
+  build (set_bin_name c bin) = Some b -> zsh_ok b bin.
+Proof.
+  intros Hnb Hne Hsp Hsib Hhf Hbl Hb. destruct (nobl_cres b (build_nobl c bin b Hb Hbl)) as [Hc0 Hcr].
+  exact (build_zsh_ok_resolved c bin b Hnb Hne Hsp Hsib Hhf Hb Hc0 Hcr).
 Qed.
 
 (** [generate] as a whole: the file it writes is the file of a tree in the class, so the theorems about [zsh_ok] trees
     (exact lookup, one arm per path at every depth, the [_commands] functions, coverage) speak about it *)
-Theorem generate_zsh_ok bl c d bin :
-  nb c = true -> bin <> [] -> nospace c -> siblings_ok c -> help_free false c = true ->
+Theorem generate_zsh_ok c d bin :
+  nb c = true -> bin <> [] -> nospace c -> siblings_ok c -> help_free false c = true -> args_all no_bl c = true ->
   exists b s, build (set_bin_name c bin) = Some b /\ zsh_ok b bin /\
-              generate_zsh bl c d bin = Some s /\ zsh_script bl b (dbuild (set_bin_name c bin) d) = Some s.
+              generate_zsh c d bin = Some s /\ zsh_script b (dbuild (set_bin_name c bin) d) = Some s.
 Proof.
-  intros Hnb Hne Hsp Hsib Hhf.
+  intros Hnb Hne Hsp Hsib Hhf Hbl.
   destruct (build (set_bin_name c bin)) as [b|] eqn:E; [|exfalso; exact (build_total _ E)].
-  pose proof (build_zsh_ok c bin b Hnb Hne Hsp Hsib Hhf E) as Hok.
-  destruct (zsh_total bl b (dbuild (set_bin_name c bin) d) bin (zo_bin _ _ Hok) (zo_linked _ _ Hok)) as [s Hs].
+  pose proof (build_zsh_ok c bin b Hnb Hne Hsp Hsib Hhf Hbl E) as Hok.
+  destruct (zsh_total b (dbuild (set_bin_name c bin) d) bin (zo_bin _ _ Hok) (zo_linked _ _ Hok)
+                      (zo_conflicts_root _ _ Hok) (zo_conflicts _ _ Hok)) as [s Hs].
   exists b, s. split; [reflexivity|]. split; [exact Hok|]. split; [|exact Hs].
-  rewrite (generate_zsh_is_built bl c d bin b E). exact Hs.
+  rewrite (generate_zsh_is_built c d bin b E). exact Hs.
 Qed.
 
 (** the hypotheses hold for the tree of [zsh_ok_example] as a user writes it (no bin names): siblings [add] / [add-all],
@@ -85,12 +123,13 @@ Lemma reach_cons' c sc w ws nm ns n :
 Proof. intros H1 H2 <- H3. eapply reach_cons; eauto. Qed.
 Example generate_zsh_ok_example :
   nb zx_user = true /\ nospace zx_user /\ siblings_ok zx_user /\ help_free false zx_user = true /\
+  args_all no_bl zx_user = true /\
   exists b n m, build (set_bin_name zx_user (lit "p")) = Some b /\
     reach b [lit "a"; lit "x"] [lit "add"; lit "x"] n /\ In zx_opt (c_args n) /\
     reach b [lit "help"; lit "add"; lit "x"] [lit "help"; lit "add"; lit "x"] m.
 Proof.
   split; [reflexivity|]. split; [apply nospace_names, names_okb_sound; reflexivity|].
-  split; [apply siblings_okb_sound; reflexivity|]. split; [reflexivity|].
+  split; [apply siblings_okb_sound; reflexivity|]. split; [reflexivity|]. split; [reflexivity|].
   destruct (build (set_bin_name zx_user (lit "p"))) as [b|] eqn:E; [|exfalso; exact (build_total _ E)].
   vm_compute in E. inversion E; subst b; clear E.
   eexists _, _, _. split; [reflexivity|]. split; [|split].
